@@ -244,6 +244,21 @@ CONFIG = {
             "pubsub leg: the liveness witness T does not trust A, so A's updates cannot reach B re-signed inside T's DAG",
         ],
     },
+    "C17": {
+        "pkg": "c17",
+        "max_procs": 10,
+        "legs": [
+            {"run": "^TestMembership$", "quick": (4, 10), "thorough": (60, 12), "timeout": {"quick": 900, "thorough": 7200}},
+        ],
+        "floors": {"membership": {"nontrivial": 8, "evaluations": 25}},
+        "assumptions": [
+            QUIC,
+            "full Cluster instances with real Raft consensus (BoltDB, file snapshots) and a real dual DHT on loopback hosts; tracker, monitor, informer and IPFS connector are harness fakes; every member is healthy for the allocator",
+            "membership changes are issued one at a time; one that returns an error ends the case as inconclusive (counted)",
+            "agreement is observed by bounded polling (60 s) of Consensus.Peers and the pinset on every running member",
+            "no partitions; Raft's own schedules are explored by repetition only",
+        ],
+    },
     "C08": {
         "pkg": "c08",
         "regress": "^TestRegress",
